@@ -72,6 +72,15 @@ CLAIMED = {
         "data => every interleaving of any number of threads is race free and yields sequential results.",
    note=TB + "; __cxa_guard runtime and hardware memory model trusted; diff::dr/minimize/fit on private data are covered by their own checks' write sets, not here.",
    ref="DESIGN 4/C18", technique="symbolic execution of LLVM IR with exact write-set tracking (footprint non-interference)"),
+ "C20": dict(
+   text="Bounded symbolic / exact check: basis coefficient matrices (compile-time constants read from the IR run) K<=6 quick / <=10 thorough decided by z3 against the definitions "
+        "(Bernstein polynomials, Cox-de Boor, three-term recurrences from P0,P1; non-negativity on [0,1] as one-variable NRA, partition of unity, cumulative = tail sums); "
+        "monomial_derivative(s) and lagrange_basis on symbolic arguments (identity obligations); monomial_integral and lgr_nodes moments by ground rational arithmetic; "
+        "binary_interval_search on EVERY sorted real range of length <=4 (<=6 thorough) and every query: each explored path's result index must be entailed by the documented "
+        "cases; integrate_absolute_polynomial on every path against a sign-pattern certificate of the true integral (z3 NRA, counterexamples replayed natively).",
+   note=TB + "; constants snapped to the simplest rational within half an ulp; integrate_absolute_polynomial box [t0,t1] in [0,1], |A|,|B|,|C|<=1e3 and NRA queries that time out "
+        "are reported undecided; bit-precise CBMC lane for the search not built (layer R only).",
+   ref="DESIGN 4/C20", technique="symbolic execution of LLVM IR + SMT (z3 NRA/LRA), exact rational definitions"),
 }
 NA = {}
 checks = []
